@@ -301,7 +301,27 @@ def _miner(res, tier, seed):
                 res.count("miner_failures_outside_C05")
 
     prop()
-    res.sample({"miner_path": "MinerWatcher request/answer loop with a ticking clock, 60% of the heads just below a retarget boundary"})
+    # ... and with the REAL miner loop (Miner.__call__ in a thread) instead of the harness playing the miner
+    rnd2 = random.Random(env.subseed(seed, ID, "real_miner"))
+    for _ in range(6 if tier == "quick" else 60):
+        case = {"real_miner": True, "hist_seed": rnd2.randrange(10 ** 6), "cfg": list(rnd2.choice(chainexec.CFGS[:3])), "n_blocks": rnd2.randrange(3, 9),
+                "finds": rnd2.choice([1, 2, 3]), "nonce0": rnd2.randrange(1 << 30)}
+        try:
+            fails, info = c12.real_miner_sessions(case)
+        except env.HarnessError as e:
+            res.error(str(e))
+            continue
+        res.evaluations += 1
+        res.count("real_miner_loop_sessions")
+        res.count("real_miner_loop_finds", info.get("finds", 0))
+        if info.get("finds"):
+            res.nontrivial(env.digest(case))
+        for f in fails:
+            if f["sig"].startswith("found-block-invalid:C05") or (f["sig"].startswith("miner-loop-died") and ("Validate" in f["msg"] or "POW" in f["msg"])):
+                res.fail("assembly", "miner:" + f["sig"], "block assembled by the real miner loop: " + f["msg"], {"miner_case": case})
+            else:
+                res.count("miner_failures_outside_C05")
+    res.sample({"miner_path": "MinerWatcher request/answer loop with a ticking clock, 60% of the heads just below a retarget boundary; plus the real Miner.__call__ loop in a thread"})
 
 
 def run(shard, tier, seed):
@@ -343,6 +363,8 @@ def run(shard, tier, seed):
 def replay(case):
     if "miner_case" in case:
         from vf.props import c12
+        if case["miner_case"].get("real_miner"):
+            return [dict(f, sig="miner:" + f["sig"]) for f in c12.real_miner_sessions(case["miner_case"])[0]]
         return [dict(f, sig="miner:" + f["sig"]) for f in c12.execute(case["miner_case"])[0]]
     if "prev" in case:
         env.import_repo()
